@@ -1,6 +1,9 @@
 import VModel.Csv
+import VModel.CsvFile
 import VProofs.C01
 import VProofs.Lemmas.CsvSplit
+import VProofs.Lemmas.CsvFileLoad
+import VProofs.Lemmas.CsvFileVariants
 /-!
 # C19 — Dictionary edits act as documented; dump and replace are lossless
 
@@ -69,5 +72,180 @@ theorem C19_predictor_delta (cfg : Cfg) (m : WModel) (d' : List DictWord) (hm : 
   rw [h1, h2]
   exact C19_replace_delta m d' s.text b
 
-end V
+/-! ## the CSV file layer (`VModel/CsvFile.lean`): the contract "read (write rows) = rows" of the `csv` crate, proved for the model
+of its writer and of its reader automaton -/
 
+/-- one field, alone in its record (the empty field is written as `""`) and in any position of a longer record, comes back
+as it was written — for any characters, `,` `"` CR LF included -/
+theorem C19_csv_field_roundtrip (f : List Char) :
+    csvParse (csvRecord [f]) = some [[f]] ∧
+    ∀ pre post : List (List Char), csvParse (csvRecord (pre ++ f :: post)) = some [pre ++ f :: post] := by
+  have h : ∀ r : List (List Char), r ≠ [] → csvParse (csvRecord r) = some [r] := by
+    intro r hr
+    have := C19F.go_record r hr []
+    simpa [csvParse, csvGo] using this
+  exact ⟨h [f] (by simp), fun pre post => h _ (by simp)⟩
+
+/-- the reader applied to what the writer wrote gives back the records, for ALL lists of records of at least one field each
+and arbitrary fields.  No further restriction is needed: the one spelling that real CSV cannot tell from a blank line — a
+record consisting of one empty field — is written as `""` by `csv_core::Writer::terminator`, and `csvRecord` models that. -/
+theorem C19_csv_roundtrip (records : List (List (List Char))) (hne : ∀ r ∈ records, r ≠ []) :
+    csvParse (records.flatMap csvRecord) = some records := by
+  have := C19F.go_records records hne []
+  simpa [csvParse, csvGo] using this
+
+/-- the restriction `r ≠ []` is needed (a record of zero fields is written like a record of one empty field), and without the
+`""` rule of the writer a record of one empty field would be lost: it would read as a blank line -/
+example : csvParse ([[]].flatMap csvRecord) = some [[[]]] ∧ csvParse (csvJoin [[]] ++ ['\n']) = some [] := by decide
+
+/-- the spellings an editor produces are read as well, and are inside the strict domain: any field may be in quotes
+(`(true, f)`), every record is followed by a non-empty run of CR / LF (so LF, CR LF, CR, and blank lines), blank lines may
+precede the first record, and the last record may lack its terminator (`last`, `[]` = there is none).  The only excluded
+spelling is the record written as nothing (one unquoted empty field): it is a blank line. -/
+theorem C19_csv_variants (lead : List Char) (recs : List (List (Bool × List Char) × List Char))
+    (last : List (Bool × List Char))
+    (hlead : ∀ c ∈ lead, c = '\n' ∨ c = '\r')
+    (hrecs : ∀ r ∈ recs, r.1 ≠ [] ∧ r.1 ≠ [(false, [])] ∧ r.2 ≠ [] ∧ ∀ c ∈ r.2, c = '\n' ∨ c = '\r')
+    (hlast : last ≠ [(false, [])]) :
+    csvParse (lead ++ (recs.flatMap (fun r => C19F.csvJoinV r.1 ++ r.2) ++ C19F.csvJoinV last)) =
+      some (recs.map (fun r => r.1.map (·.2)) ++ (if last = [] then [] else [last.map (·.2)])) ∧
+    csvStrictGo .startRecord (lead ++ (recs.flatMap (fun r => C19F.csvJoinV r.1 ++ r.2) ++ C19F.csvJoinV last)) = true := by
+  have h1 := C19F.go_fileV lead recs last hlead hrecs hlast
+  have h2 := C19F.strict_fileV lead recs last hlead hrecs hlast
+  unfold C19F.csvFileV at h1 h2
+  exact ⟨by rw [csvParse, h1], h2⟩
+
+/-- the contract of the `csv` crate that `C19_dump_replace` assumed: a file consisting of the header and one record per row is
+read as exactly these rows, whatever the three columns contain -/
+theorem C19_csv_contract (rows : List (List Char × List Char × List Char)) :
+    csvLoadFile (csvRecord csvHeader ++ rows.flatMap fun r => csvRecord (csvRowFields r)) = loadRows rows :=
+  C19F.load_written rows
+
+/-- dump file, then load file: the dictionary comes back, for any words and comments -/
+theorem C19_dump_file_roundtrip (d : List DictWord)
+    (hshape : ∀ e ∈ d, e.weights.length = e.word.length + 1)
+    (hrange : ∀ e ∈ d, ∀ w ∈ e.weights, -(2 ^ 31 : Int) ≤ w ∧ w < 2 ^ 31) :
+    csvLoadFile (csvDumpFile d) = .ok d := by
+  by_cases hd : d = []
+  · subst hd; rfl
+  · rw [C19F.dumpFile_eq d hd, C19F.load_written]
+    exact C19L.loadRows_dump d hshape hrange
+
+/-- model ↦ dump file ↦ replace gives the same model (all components: `C19_replace_frame` for the rest) -/
+theorem C19_dump_file_replace_model (m : WModel)
+    (hshape : ∀ d ∈ m.dict, d.weights.length = d.word.length + 1)
+    (hrange : ∀ d ∈ m.dict, ∀ w ∈ d.weights, -(2 ^ 31 : Int) ≤ w ∧ w < 2 ^ 31) :
+    ∃ d', csvLoadFile (csvDumpFile m.dict) = .ok d' ∧ m.replaceDict d' = m ∧
+      (m.replaceDict d').charNgrams = m.charNgrams ∧ (m.replaceDict d').typeNgrams = m.typeNgrams ∧
+      (m.replaceDict d').bias = m.bias ∧ (m.replaceDict d').charW = m.charW ∧ (m.replaceDict d').typeW = m.typeW ∧
+      (m.replaceDict d').tagModels = m.tagModels ∧ (m.replaceDict d').dict = m.dict := by
+  refine ⟨m.dict, C19_dump_file_roundtrip m.dict hshape hrange, (C19_dump_replace m hshape hrange).2, ?_⟩
+  exact C19_replace_frame m m.dict
+
+/-- every file written as the header and further records (of at least one field each) is inside the strict domain -/
+theorem C19_written_file_strict (recs : List (List (List Char))) (hne : ∀ r ∈ recs, r ≠ []) :
+    csvStrict (csvRecord csvHeader ++ recs.flatMap csvRecord) = true := by
+  have hall : ∀ r ∈ csvHeader :: recs, r ≠ [] := by
+    intro r hr
+    rcases List.mem_cons.mp hr with e | e
+    · rw [e]; exact C19F.header_ne_nil
+    · exact hne r e
+  have hp : csvGo .startRecord [] [] (csvRecord csvHeader ++ recs.flatMap csvRecord) = csvHeader :: recs := by
+    simpa [csvGo] using C19F.go_records (csvHeader :: recs) hall []
+  have hs : csvStrictGo .startRecord (csvRecord csvHeader ++ recs.flatMap csvRecord) = true := by
+    have := C19F.strict_records (csvHeader :: recs) hall []
+    rw [List.append_nil, List.flatMap_cons] at this
+    rw [this]; rfl
+  unfold csvStrict
+  rw [C19F.hasBom_header, hs, hp]
+  simp
+
+/-- the writer's output is inside the domain where the model claims agreement with the real reader (no hypothesis on `d`) -/
+theorem C19_dump_file_strict (d : List DictWord) : csvStrict (csvDumpFile d) = true := by
+  by_cases hd : d = []
+  · subst hd; rfl
+  · rw [C19F.dumpFile_eq d hd, ← List.flatMap_map]
+    apply C19_written_file_strict
+    intro r hr
+    obtain ⟨x, _, e⟩ := List.mem_map.mp hr
+    rw [← e]; simp [csvRowFields]
+
+/-- a file in which some record's `weights` column does not parse (empty column, double space, non-digit, outside `i32`) or has a
+number of weights different from the word length + 1 is rejected as a whole -/
+theorem C19_load_file_rejects (rows : List (List Char × List Char × List Char))
+    (hbad : ∃ r ∈ rows, ∀ ws, parseWeights r.2.1 = some ws → ws.length ≠ r.1.length + 1) :
+    csvLoadFile (csvRecord csvHeader ++ rows.flatMap fun r => csvRecord (csvRowFields r)) = .err .invalidArgument := by
+  rw [C19F.load_written]
+  exact C19F.loadRows_bad rows hbad
+
+/-- … and so is a file in which some record does not have exactly three fields (`UnequalLengths` in the real reader) -/
+theorem C19_load_file_rejects_fieldcount (recs : List (List (List Char))) (hne : ∀ r ∈ recs, r ≠ [])
+    (hbad : ∃ r ∈ recs, r.length ≠ 3) :
+    csvLoadFile (csvRecord csvHeader ++ recs.flatMap csvRecord) = .err .invalidArgument := by
+  rw [C19F.load_written_records recs hne, C19F.mapM_rowOf_none recs hbad]
+
+/-- a file is never half-accepted: the result is the whole dictionary or the rejection -/
+theorem C19_load_file_total (s : List Char) :
+    (∃ d, csvLoadFile s = .ok d) ∨ csvLoadFile s = .err .invalidArgument := by
+  unfold csvLoadFile csvParse
+  cases csvGo .startRecord [] [] (csvStripBom s) with
+  | nil => exact Or.inl ⟨[], rfl⟩
+  | cons h recs =>
+    by_cases hh : h = csvHeader
+    · simp only []; rw [if_pos hh]
+      cases recs.mapM csvRowOf? with
+      | none => exact Or.inr rfl
+      | some rows => exact C19F.loadRows_cases rows
+    · simp only []; rw [if_neg hh]; exact Or.inr rfl
+
+/-! ### non-vacuity (all by `decide`) -/
+
+/-- hostile fields: `a,b`, a lone quote, an embedded line break, CR, the empty field, `#x`, leading / trailing spaces -/
+example : csvRecord ["a,b".toList, "\"".toList, "x\ny".toList, "\r".toList, [], "#x".toList, " y ".toList]
+    = "\"a,b\",\"\"\"\",\"x\ny\",\"\r\",,#x, y \n".toList := by decide
+
+example : csvParse "\"a,b\",\"\"\"\",\"x\ny\",\"\r\",,#x, y \n".toList
+    = some [["a,b".toList, "\"".toList, "x\ny".toList, "\r".toList, [], "#x".toList, " y ".toList]] := by decide
+
+/-- a dictionary with hostile words and comments: the file, the way back, strictness -/
+example : csvDumpFile [⟨"a,b".toList, [1, -2, 3, 4], []⟩, ⟨"\"".toList, [0, 2147483647], "#x".toList⟩,
+      ⟨"x\ny".toList, [-2147483648, 0, 0, 5], " lead and trail ".toList⟩, ⟨[], [7], "say \"hi\"".toList⟩]
+    = ("word,weights,comment\n\"a,b\",1 -2 3 4,\n\"\"\"\",0 2147483647,#x\n" ++
+       "\"x\ny\",-2147483648 0 0 5, lead and trail \n,7,\"say \"\"hi\"\"\"\n").toList := by decide
+
+example : csvLoadFile (csvDumpFile [⟨"a,b".toList, [1, -2, 3, 4], []⟩, ⟨"\"".toList, [0, 2147483647], "#x".toList⟩,
+      ⟨"x\ny".toList, [-2147483648, 0, 0, 5], " lead and trail ".toList⟩, ⟨[], [7], "say \"hi\"".toList⟩])
+    = .ok [⟨"a,b".toList, [1, -2, 3, 4], []⟩, ⟨"\"".toList, [0, 2147483647], "#x".toList⟩,
+      ⟨"x\ny".toList, [-2147483648, 0, 0, 5], " lead and trail ".toList⟩, ⟨[], [7], "say \"hi\"".toList⟩] := by decide
+
+/-- the empty dictionary: an empty file, which loads as the empty dictionary; so does a file with the header only -/
+example : csvDumpFile [] = [] ∧ csvLoadFile [] = .ok [] ∧ csvLoadFile "word,weights,comment\n".toList = .ok [] ∧
+    csvStrict [] = true := by decide
+
+/-- what an editor saves: every field quoted, CR LF, a blank line, no final terminator — accepted and strict -/
+example : csvLoadFile "\"word\",\"weights\",\"comment\"\r\n\"a,b\",\"1 2 3 4\",\"\"\r\n\r\nc,5 6,x".toList
+      = .ok [⟨"a,b".toList, [1, 2, 3, 4], []⟩, ⟨"c".toList, [5, 6], "x".toList⟩] ∧
+    csvStrict "\"word\",\"weights\",\"comment\"\r\n\"a,b\",\"1 2 3 4\",\"\"\r\n\r\nc,5 6,x".toList = true ∧
+    csvLoadFile "word,weights,comment\ra,1 2,\r".toList = .ok [⟨"a".toList, [1, 2], []⟩] := by decide
+
+/-- rejected files: wrong number of weights, unparsable weights (double space, empty column, out of range), two or four
+fields, another header -/
+example : csvLoadFile "word,weights,comment\nab,1 2,x\n".toList = .err .invalidArgument ∧
+    csvLoadFile "word,weights,comment\nab,1  2 3,x\n".toList = .err .invalidArgument ∧
+    csvLoadFile "word,weights,comment\nok,1 2 3,\n,,x\n".toList = .err .invalidArgument ∧
+    csvLoadFile "word,weights,comment\na,1 2147483648,x\n".toList = .err .invalidArgument ∧
+    csvLoadFile "word,weights,comment\na,1 2\n".toList = .err .invalidArgument ∧
+    csvLoadFile "word,weights,comment\na,1 2,x,y\n".toList = .err .invalidArgument ∧
+    csvLoadFile "word,weight,comment\na,1 2,x\n".toList = .err .invalidArgument := by decide
+
+/-- the lenient inputs are read like csv-core reads them, and flagged: a quote inside an unquoted field, text after a closing
+quote, a quoted field open at the end of the input, a byte order mark, a permuted header -/
+example : csvParse "a\"b,\"c\"d\n\"open".toList = some [["a\"b".toList, "cd".toList], ["open".toList]] ∧
+    csvStrict "word,weights,comment\na\"b,1 2 3 4,\n".toList = false ∧
+    csvStrict "word,weights,comment\n\"a\"b,1 2 3,\n".toList = false ∧
+    csvStrict "word,weights,comment\na,1 2,\"x".toList = false ∧
+    csvStrict (Char.ofNat 0xFEFF :: "word,weights,comment\na,1 2,x\n".toList) = false ∧
+    csvLoadFile (Char.ofNat 0xFEFF :: "word,weights,comment\na,1 2,x\n".toList) = .ok [⟨"a".toList, [1, 2], "x".toList⟩] ∧
+    csvStrict "comment,word,weights\nx,a,1 2\n".toList = false := by decide
+
+end V
